@@ -55,6 +55,25 @@ def alt_events(obj, origin):
         ab = wire_tls.message_abs(obj)
     except Exception:  # pylint: disable=broad-except
         return []
+    if ab is not None and ab[0] in ('client_hello', 'server_hello') and not ab[1]['extensions']:
+        kind, a = ab
+        out, wire, _ = call(lambda o: o.compose(), obj)
+        if out != 'ok':
+            return []
+        wire = bytes(wire)
+        ln = len(wire) - 4 + 2
+        alt = wire[:1] + bytes([ln >> 16, (ln >> 8) & 0xff, ln & 0xff]) + wire[4:] + b'\x00\x00'
+        o2, res, _ = call(type(obj).parse_immutable, alt)
+        back_same, n = False, 0
+        if o2 == 'ok':
+            try:
+                b = wire_tls.message_abs(res[0])
+                n = res[1]
+                back_same = b is not None and b[0] == kind and json.dumps(norm(b[1]), sort_keys=True) == json.dumps(norm(a), sort_keys=True)
+            except Exception:  # pylint: disable=broad-except
+                back_same = False
+        return [{'ev': 'alt', 'form': 'empty-extensions-block', 'kind': kind, 'abs': a, 'pad': 0, 'wire': list(alt), 'parse': o2, 'n': n,
+                 'back_same': back_same, 'origin': origin + ':empty-extensions-block', 'cls': type(obj).__name__}]
     if ab is None or not ab[0].startswith('ssl2'):
         return []
     kind, a = ab
@@ -77,7 +96,7 @@ def alt_events(obj, origin):
                 back_same = b is not None and b[0] == kind and json.dumps(b[1], sort_keys=True) == json.dumps(a, sort_keys=True)
             except Exception:  # pylint: disable=broad-except
                 back_same = False
-        evs.append({'ev': 'alt', 'kind': kind, 'abs': a, 'pad': pad, 'wire': list(alt), 'parse': o2, 'n': n, 'back_same': back_same,
+        evs.append({'ev': 'alt', 'form': 'ssl2-padded', 'kind': kind, 'abs': a, 'pad': pad, 'wire': list(alt), 'parse': o2, 'n': n, 'back_same': back_same,
                     'origin': origin + ':3-byte-header-pad%d' % pad, 'cls': type(obj).__name__})
     return evs
 
@@ -118,6 +137,8 @@ def drive(arg):
             e = event_for(cls, var, 'variant:' + desc)
             if e:
                 events.append(e)
+            if desc.startswith('extensions='):
+                events += alt_events(var, 'variant:' + desc)
     return events
 
 
@@ -333,6 +354,8 @@ def run(rep):
         clause = tup[1]
         sub = e['kind'] + (':' + e['abs'].get('k', '') if e['kind'] == 'extension' else '')
         field = e['origin'].replace('variant:', '') if e['origin'].startswith('variant:') else e['origin']
+        if clause == 'hello-retry-request-handshake-type-is-not-server-hello':
+            field = 'type-octet'          # one cause, whatever the other field values are
         rep.violation('%s|%s|%s' % (e['cls'], clause, field), '%s (%s): %s [%s]' % (e['cls'], sub, clause, e['origin']),
                       {'kind': e['kind'], 'abs': e['abs'], 'wire_hex': bytes(e['wire']).hex()[:600], 'origin': e['origin']})
     rep.assumptions += ['TlsWire.tla is my transcription of the RFC layouts; the abstract value of an extension inside a hello is '
